@@ -1673,6 +1673,12 @@ theorem xh_refines (N : Nat) (d : Bool) (S0 P damp : Sim) (nl : Bool) (θ : Rat)
       = hembed (mkHilbert N d S0 P damp nl θ) := by
   rw [xh_constructor, hilbert_constructor, absX_embed, hilbertStateX_embed]
 
+/-- **… for whole histories**: running an exact Hilbert history (`set_threshold / set_link_density /
+set_non_local / set_directed`) on the embedded object is embedding the run of the exact model of
+section 7 -/
+theorem xh_refines_history (ops : List HOp) (h : HNet) :
+    (hembed h).run id (ops.map hembedOp) = (h.run ops).map hembed := hembed_run ops h
+
 /-- directed network, antisymmetric phase with a NaN pair: the pair (0,1) has coherence 1/3
 (float32: 11184811/2²⁵) above the threshold 1/4 and phase 1/2 > 0 → linked one way; the pair
 (0,2) has a NaN phase → never linked although its coherence 3/4 is above the threshold;
